@@ -13,6 +13,10 @@ import (
 	"github.com/acquirecloud/golibs/zsimrt"
 )
 
+// a delay of more than a century means "practically never": the run does not
+// wait for it, but it must not fire early either
+const practicallyNever = 100 * 365 * 24 * time.Hour
+
 type fut struct {
 	id        string
 	t0        time.Time
@@ -194,10 +198,20 @@ func (w *world) Finished(e *sim.Env) bool {
 		var stalls time.Duration
 		for _, id := range w.order {
 			f := w.futs[id]
+			if f.d > practicallyNever {
+				continue
+			}
+			// a stalled callback of a future that fired before it was cancelled still
+			// occupies a worker
+			stalls += f.stall
+			if f.cancelInv {
+				// a cancelled future is nothing to wait for (C13: "when nothing is
+				// pending the package winds down")
+				continue
+			}
 			if f.due.After(maxDue) {
 				maxDue = f.due
 			}
-			stalls += f.stall
 		}
 		wait := time.Until(maxDue)
 		if wait < 0 {
@@ -217,6 +231,13 @@ func (w *world) Finished(e *sim.Env) bool {
 		sort.Strings(ids)
 		for _, id := range ids {
 			f := w.futs[id]
+			if f.d > practicallyNever {
+				if f.count == 0 && f.f != nil {
+					f.cancelInv = true
+					f.f.Cancel() // so that the pool can wind down
+				}
+				continue
+			}
 			if !f.cancelInv && f.count != 1 {
 				if w.mode == "c13" {
 					e.Violate("C13", "not_fired", "future %s (delay %v) was never cancelled and callbacks return promptly, yet it started %d times by %v past its due time", f.id, f.d, f.count, time.Since(f.due))
@@ -275,7 +296,7 @@ func (w *world) Idle(e *sim.Env) {
 	L := w.slack()
 	for _, id := range w.order {
 		f := w.futs[id]
-		if f.cancelInv || f.count > 0 || !f.created || f.f == nil {
+		if f.cancelInv || f.count > 0 || !f.created || f.f == nil || f.d > practicallyNever {
 			continue
 		}
 		if now.Sub(f.due) > L {
@@ -330,7 +351,7 @@ func Generate(r *sim.Rng, prop, tier string, idx int) *sim.Case {
 		nt = 1 + r.Intn(6)
 	}
 	if c.Mode == "c12" {
-		delays := []time.Duration{-time.Millisecond, 0, 0, time.Microsecond, time.Millisecond, time.Millisecond, 5 * time.Millisecond, 5 * time.Millisecond, 50 * time.Millisecond, time.Second, time.Minute, 10 * time.Minute}
+		delays := []time.Duration{time.Duration(1<<63 - 1), 250 * 365 * 24 * time.Hour, -time.Millisecond, 0, 0, time.Microsecond, time.Millisecond, time.Millisecond, 5 * time.Millisecond, 5 * time.Millisecond, 50 * time.Millisecond, time.Second, time.Minute, 10 * time.Minute}
 		for t := 0; t < nt; t++ {
 			task := sim.Task{Name: fmt.Sprintf("t%d", t)}
 			n := 2 + r.Intn(7)
@@ -384,7 +405,7 @@ func Generate(r *sim.Rng, prop, tier string, idx int) *sim.Case {
 		task := sim.Task{Name: fmt.Sprintf("t%d", t)}
 		np := 1 + r.Intn(3)
 		for p := 0; p < np; p++ {
-			switch r.Intn(5) {
+			switch r.Intn(6) {
 			case 0: // far then near
 				task.Ops = append(task.Ops, sim.Op{K: "call", D: int64(sim.Pick(r, time.Minute, 10*time.Second, time.Hour))})
 				if r.Chance(1, 2) {
@@ -404,6 +425,11 @@ func Generate(r *sim.Rng, prop, tier string, idx int) *sim.Case {
 				h := len(task.Ops)
 				task.Ops = append(task.Ops, sim.Op{K: "call", D: int64(5 * time.Millisecond)})
 				task.Ops = append(task.Ops, sim.Op{K: "call", D: int64(sim.Pick(r, 20*time.Millisecond, 50*time.Millisecond, time.Second))})
+				task.Ops = append(task.Ops, sim.Op{K: "cancel", S: fmt.Sprintf("%s.%d", task.Name, h)})
+			case 5: // a far future that is the only thing pending, then cancelled
+				h := len(task.Ops)
+				task.Ops = append(task.Ops, sim.Op{K: "call", D: int64(sim.Pick(r, time.Minute, 10*time.Minute, time.Hour))})
+				task.Ops = append(task.Ops, sim.Op{K: "sleep", D: int64(sim.Pick(r, time.Microsecond, time.Millisecond, idle))})
 				task.Ops = append(task.Ops, sim.Op{K: "cancel", S: fmt.Sprintf("%s.%d", task.Name, h)})
 			case 3: // idle gap
 				task.Ops = append(task.Ops, sim.Op{K: "sleep", D: int64(2*idle) + int64(sim.Pick(r, time.Microsecond, idle/2, idle, 3*idle))})
